@@ -10,6 +10,7 @@ import SkaModel.DriverBase
 import SkaModel.DriverHist
 import SkaModel.DriverMap
 import SkaModel.DriverSkf
+import SkaModel.DriverCov
 import SkaModel.Impl.Reads
 import SkaModel.Spec.ReadsSpec
 
@@ -123,6 +124,9 @@ def runCase (c : Case) : String × String :=
     let sd := Spec.specReadsDict (c.nat "k") (c.flag "rc") rule (c.nat "mq") (c.nat "mc")
       ((f1 ++ f2).map (fun r => (r.seq, r.qual)))
     (m, if sd.isEmpty then "novalid" else showDict sd)
+  | "covll" => runCovll c
+  | "covcut" => runCovcut c
+  | "covcheck" => runCovcheck c
   | "skfdec" => runSkfdec c
   | "unframe" => runUnframe c
   | "map" => runMap c
